@@ -275,6 +275,51 @@ def gen_cases(tier, rng):
     yield Case(line(HS_S + msg(3, E.T_CMD0, 0, E.a_str("connect") + E.a_num(1) + E.a_ecma([("app", E.a_str("live"))]))), cls="connect-variants")
     yield Case(line(HS_S + msg(3, E.T_CMD0, 0, E.a_str("connect") + E.a_num(1) + b"\x03" * (4000 if not thorough else 200000), chunk=1 << 20)), cls="connect-variants")
     yield Case(line(HS_S + msg(3, E.T_CMD0, 0, E.a_str("connect") + E.a_num(1) + b"\x03\x00\x01k" * (3000 if not thorough else 100000), chunk=1 << 20)), cls="connect-variants")
+    # ECMA / strict arrays whose declared entry count has nothing to do with the bytes present: inside the command
+    # object of connect, as the command object itself, and in publish / play / @setDataFrame messages
+    def arr(kind, count, present):
+        if kind == "e":
+            ents = b"".join(struct.pack(">H", 1) + b"k" + E.a_num(i) for i in range(present))
+            return b"\x08" + struct.pack(">I", count & 0xFFFFFFFF) + ents + b"\x00\x00\x09"
+        return b"\x0a" + struct.pack(">I", count & 0xFFFFFFFF) + b"".join(E.a_num(i) for i in range(present))
+    for kind in "ea":
+        for present in (0, 2):
+            for count in (0, 1, present, present + 1, 1 << 16, 1 << 24, (1 << 31) - 1, 1 << 31, (1 << 32) - 1):
+                a = arr(kind, count, present)
+                yield Case(line(HS_S + msg(3, E.T_CMD0, 0, cobj([("app", E.a_str("live")), ("x", a)]), chunk=4096)), cls="array-count")
+                yield Case(line(HS_S + msg(3, E.T_CMD0, 0, cobj([("x", E.a_obj([("y", a)])), ("app", E.a_str("live"))]), chunk=4096)), cls="array-count")
+                if present == 0:
+                    yield Case(line(HS_S + msg(3, E.T_CMD0, 0, E.a_str("connect") + E.a_num(1) + a, chunk=4096)), cls="array-count")
+                    yield Case(line(pre_tok["pub"] + "+" + data_tok(msg(5, E.T_DATA0, 1, E.a_str("@setDataFrame") + E.a_str("onMetaData") + a, chunk=4096))), cls="array-count")
+                    for cmd in ("publish", "play"):
+                        yield Case(line(conn_tok + "+" + data_tok(msg(5, E.T_CMD0, 1, E.a_str(cmd) + E.a_num(3) + E.a_null() + E.a_str("s") + a, chunk=4096))), cls="array-count")
+                        yield Case(line(conn_tok + "+" + data_tok(msg(5, E.T_CMD0, 1, E.a_str(cmd) + E.a_num(3) + a, chunk=4096))), cls="array-count")
+    # containers nested in the command object of connect: each kind and mixed, around the limit of 32 and far beyond
+    def chain(kinds, n, close):
+        """n containers, kinds cycled, innermost empty; unterminated when close is False"""
+        op, cl = [], []
+        for i in range(n):
+            k = kinds[i % len(kinds)]
+            last = i == n - 1
+            if k == "o":
+                op.append(b"\x03" + (b"" if last else b"\x00\x01k")); cl.append(b"\x00\x00\x09")
+            elif k == "e":
+                op.append(b"\x08" + struct.pack(">I", 0 if last else 1) + (b"" if last else b"\x00\x01k")); cl.append(b"\x00\x00\x09")
+            else:
+                op.append(b"\x0a" + struct.pack(">I", 0 if last else 1)); cl.append(b"")
+        return b"".join(op) + (b"".join(reversed(cl)) if close else b"")
+    depths = [30, 31, 32, 33, 1000, 100000] + ([2000000] if thorough else [])
+    for kinds in ("o", "e", "a", "oea", "ae"):
+        for n in depths:
+            if n >= 100000 and (kinds not in ("a", "o", "oea") if not thorough else n > 100000 and kinds not in ("a", "o")):
+                continue
+            for close in ((True, False) if n <= 33 else (False,)):
+                body = E.a_str("connect") + E.a_num(1) + b"\x03" + b"\x00\x03app" + E.a_str("live") + b"\x00\x01x" + chain(kinds, n, close) + (b"\x00\x00\x09" if close else b"")
+                # the command object is level 1, the chain reaches level n + 1; lal refuses more than Amf0MaxNestingDepth = 32 levels
+                want = "closed:0x102" if n + 1 > MAX_NEST else ("eof" if close else "closed:0x101")
+                yield Case(line(HS_S + msg(3, E.T_CMD0, 0, body, chunk=0xFFFFFF)), cls="deep-nesting", meta=dict(outcome=want))
+                if n == 1000 or (n == 100000 and kinds == "a"):
+                    yield Case(line(pre_tok["pub"] + "+" + data_tok(msg(5, E.T_DATA0, 1, E.a_str("@setDataFrame") + E.a_str("onMetaData") + chain(kinds, n, close), chunk=0xFFFFFF))), cls="deep-nesting")
     for cmd in (b"", b"Connect", b"connect\x00", b"publish", b"play", b"_result", b"onStatus", b"getStreamLength", b"FCUnpublish", b"x" * 70000):
         yield Case(line(conn_tok + "+" + data_tok(msg(3, E.T_CMD0, 0, E.a_str(cmd) + E.a_num(2) + E.a_null() + E.a_str("s"), chunk=1 << 20))), cls="connect-variants")
     # publish / play argument shapes
@@ -424,6 +469,18 @@ def tok_len(tok):
     return n
 
 
+# heap bytes a session may allocate while it runs (Go side only, runtime.MemStats.TotalAlloc around RunLoop): everything -
+# buffers incl. their growth copies, AMF values, error-level log text (hex dump of the failing message), harness copies
+MAX_NEST = 32     # rtmp.Amf0MaxNestingDepth
+ALLOC_C1 = 48
+ALLOC_C0 = 1 << 20
+
+
+def split_impl(c, out):
+    """the part of the implementation's observation the model also produces (everything but the heap allocation count)"""
+    return re.sub(r" alloc=\S+", "", out)
+
+
 def _field(out, key):
     m = re.search(r"(?:^| )%s=(\S+)" % key, out)
     return m.group(1) if m else None
@@ -453,6 +510,11 @@ def oracle(c, out):
         return None
     if _crashed(out):
         return (False, "server terminated by peer bytes: " + out.split(" ")[0])
+    af = _field(out, "alloc")
+    if af:
+        sent = tok_len(c.line.split(" ")[3])
+        if int(af, 16) > ALLOC_C1 * sent + ALLOC_C0:
+            return (False, "the session allocated %d bytes for %d bytes received (bound %d * received + %d)" % (int(af, 16), sent, ALLOC_C1, ALLOC_C0))
     memf = _field(out, "mem")
     if memf:
         reserved, streams = (int(x, 16) for x in memf.split(":"))
@@ -479,6 +541,9 @@ def oracle(c, out):
     if any(k.startswith("av") for k in kinds) and "newpub:a" not in kinds:
         return (False, "media delivered without a publish: " + sh)
     data = None
+    want = (c.meta or {}).get("outcome") if hasattr(c, "meta") else None
+    if want and out.split(" ")[0] != want:
+        return (False, "command with nested containers: want %s, got %s" % (want, out.split(" ")[0]))
     exp = (c.meta or {}).get("expect") if hasattr(c, "meta") else None
     if exp:
         if out.split(" ")[0] != exp[0] or sh != exp[1]:
